@@ -161,6 +161,7 @@ type vpConn struct {
 	peerStopsReading bool // writes block (send buffer full) until the connection is closed
 	writeDeadline    bool // a write deadline is in force
 	closedCh         chan struct{}
+	halfClosed       bool // CloseWrite was called
 	mu       sync.Mutex // net.Conn implementations are safe for concurrent use
 }
 
@@ -237,6 +238,19 @@ func (c *vpConn) Close() error {
 	}
 	c.closed = true
 	c.nclose++
+	return nil
+}
+
+// CloseWrite (as *net.TCPConn has it): the sending direction ends, the host sees end-of-stream. What the
+// host does then is its own business — this one keeps its side open (it may have more to say, or be hung),
+// so a reader of the connection keeps waiting until somebody closes it.
+func (c *vpConn) CloseWrite() error {
+	c.mu.Lock()
+	defer c.mu.Unlock()
+	if c.closed {
+		return vpErrClosed
+	}
+	c.halfClosed = true
 	return nil
 }
 func (c *vpConn) LocalAddr() net.Addr                { return nil }
